@@ -191,6 +191,12 @@ def run(rep: Report, tier: str) -> None:
                 rep.violation(r, f.module, f.qualname, short(node), "the holding-period threshold is read outside GainLoss.is_long_term_capital_gains: a second long/short definition can disagree with the first", loc(node))
     rep.ok(r, "threshold read only by the predicate (and __str__/__repr__)", f"{n_sites} LONG/SHORT decision sites")
     _check_yearly_flag(rep, m)
+    # the predicate is evaluated for each fraction from its own two timestamps: no memoisation keyed by fractions (their equality is the pair of row ids)
+    from .c17 import check_caches
+
+    rf = rep.rule("C05.f", "the long/short predicate and its inputs are not memoised by a key coarser than the fraction (row ids collide across assets)", floor=0)
+    if check_caches(rep, rf, m, ("rp2.gain_loss", "rp2.computed_data", "rp2.abstract_transaction", "rp2.in_transaction", "rp2.out_transaction", "rp2.intra_transaction")) == 0:
+        rep.ok(rf, "no functools cache in the modules that compute or carry the flag")
 
 
 def _check_yearly_flag(rep: Report, m) -> None:
